@@ -444,3 +444,78 @@ R.contract("Node._check_timers", params={"self": "Node", "conn": "PeerConnection
                      "*StoppableThread.stopped", "*Socket.closed"],
            props=["C11", "C06", "C18"],
            note="total decision function over (stopping, state, virtual clock readings, node and per-peer timers)")
+
+# ---- C09: answers of applications go back to the requesting connection --------------------------------------
+from pyvc.smt import TRUE as _TRUE, Implies as _Implies, Or as _Or, Eq as _Eq, Not as _Not
+
+
+@R.specfn("excl_unique_hbh")
+def _excl_unique_hbh(ex, st, node, h, h0, hbh):
+    """KNOWN-FINDING exclusion C09-equal-hbh: when switched on, assumes that no host other than the requester holds a
+    pending request with the same hop-by-hop id (instantiated for the host the search stops at)."""
+    from pyvc.speceval import SpecEnv
+    if not R.flags.get("C09.unique-hbh"):
+        return _VB(_TRUE)
+    env = SpecEnv(st, {"n": ex.unwrap(node), "h": ex.unwrap(h), "h0": ex.unwrap(h0), "x": ex.unwrap(hbh)})
+    return _VB(ex.spec_bool(env, "h == h0 or not pwa_has(n, h, x)"))
+
+
+@R.specfn("inv_one_conn_per_host")
+def _one_conn_per_host(ex, st, c, c0):
+    """Inv_conn instance (C13): two registered connections with the same host identity are the same connection"""
+    from pyvc.speceval import SpecEnv
+    env = SpecEnv(st, {"c": ex.unwrap(c), "c0": ex.unwrap(c0)})
+    return _VB(ex.spec_bool(env, "implies(c.host_identity == c0.host_identity, c == c0)"))
+
+
+R.exception("NotRoutable", "NodeError")
+R.exception("NodeError", "Exception")
+_READY2 = "(%s.state == %d or %s.state == %d)"
+R.contract("Node.route_answer", params={"self": "Node", "message": "Message"}, returns="Tuple[PeerConnection,Message]",
+           ghost={"h0": "str", "k0": "str"},
+           requires=[("request-pending-from-h0", "pwa_has(self, h0, message.header.hop_by_hop_identifier)"),
+                     ("inner-tables-distinct", "True")],
+           ensures=[("routes-to-the-requester", "result[0].host_identity == h0"),
+                    ("ready-only", _READY2 % ("result[0]", READY, "result[0]", READY_WAITING_DWA)),
+                    ("same-message", "result[1] == message"),
+                    ("consumed-at-most-once", "not pwa_has(self, h0, message.header.hop_by_hop_identifier)"),
+                    ("requesters-connection",
+                     "implies(k0 in self.connections and self.connections[k0].host_identity == h0, result[0] == self.connections[k0])")],
+           raises=[Raise("NotRoutable",
+                         "not (k0 in self.connections and self.connections[k0].host_identity == h0 and "
+                         + _READY2 % ("self.connections[k0]", READY, "self.connections[k0]", READY_WAITING_DWA) + ")", "only_if")],
+           modifies=["dict:self._peer_waiting_answer[h0]"],
+           props=["C09", "C19"],
+           note="h0 = host identity of the connection the request arrived on; k0 = an arbitrary connection id (witness)")
+R.loop("Node.route_answer", 0,
+       invariants=[("not-found-yet", "is_none(waiting_host_identity)"),
+                   ("requester-not-visited", "not (h0 in done)")],
+       hints=["excl_unique_hbh(self, cur, h0, message_id)"],
+       local_kinds={"waiting_host_identity": "Opt[str]"})
+R.loop("Node.route_answer", 1,
+       invariants=[("none-yet", "is_none(conn)"),
+                   ("witness-not-visited", "implies(k0 in done, self.connections[k0].host_identity != waiting_host_identity)")],
+       hints=["implies(k0 in self.connections, inv_one_conn_per_host(self.connections[cur], self.connections[k0]))"],
+       local_kinds={"conn": "Opt[PeerConnection]"})
+R.assume("Inv_conn: at most one registered connection per host identity (instantiated for the connection found)")
+
+R.contract("Application.send_answer", params={"self": "Application", "message": "Message"},
+           ghost={"h0": "str", "k0": "str", "o": "Opt[bytes]"},
+           requires=[("registered", "not is_none(self._node)"),
+                     ("request-pending-from-h0", "pwa_has(some(self._node), h0, message.header.hop_by_hop_identifier)"),
+                     ("is-an-answer", "0 <= message.header.command_flags < 256 and not is_req(message)"),
+                     ("window-well-formed", "win_ok(some(self._node), o)"),
+                     ("windows-not-shared", "implies(mkey(message) in some(self._node)._origin_waiting_answer, "
+                                            "win_sep(some(self._node), o, some(self._node)._origin_waiting_answer[mkey(message)][0]))")],
+           ensures=[("transmitted-once-on-the-requesters-connection",
+                     "implies(k0 in old(some(self._node).connections) and old(some(self._node).connections[k0].host_identity) == h0, "
+                     "items(out(some(self._node).connections[k0])) == old(items(out(some(self._node).connections[k0]))) + [message])"),
+                    ("second-submission-fails", "not pwa_has(some(self._node), h0, message.header.hop_by_hop_identifier)")],
+           raises=[Raise("NotRoutable", "True", "may"), Raise("TypeError", "True", "may")],
+           ensures_exc={"NotRoutable": [("nothing-transmitted",
+                                         "implies(k0 in some(self._node).connections, "
+                                         "items(out(some(self._node).connections[k0])) == old(items(out(some(self._node).connections[k0]))))")]},
+           ghost_modifies=["*MsgQueue.g_put"],
+           modifies=["dict:some(self._node)._peer_waiting_answer[h0]", "dict:some(self._node)._sent_answers",
+                     "dict:some(self._node)._origin_waiting_answer", "*deque:int", "*dict:Dict[int,float]"],
+           props=["C09"])
